@@ -201,6 +201,16 @@ def hyp_run(ctx: Ctx, strategy: Any, body: Callable[[Any], None], max_examples: 
         else:
             # a flaky outcome may wrap a Violation: report as inconclusive, never as violation
             raise HarnessError(f"flaky outcome under hypothesis: {e!r}")
+    except HarnessError:
+        raise
+    except Exception as e:
+        # e.g. an internal error of the shrinker: a failing case had already been seen; report it as it is
+        if state["last"] is not None:
+            v = state["last"]
+            rec.violations.append({"message": v.message + f" [shrinking aborted: {type(e).__name__}]", "case": v.case,
+                                   "seed": ctx.base_seed, "shard": ctx.shard})
+        else:
+            raise
     finally:
         rec.frozen = False
 
